@@ -68,6 +68,8 @@ class Builtins:
     # ------------------------------------------------------------------- builtins
     def bi_len(self, args, kwargs, node, fr) -> V:
         v = self.unwrap(args[0], node, fr, "argument of len")
+        if isinstance(v, VOpaque):
+            return VInt(z3.Int(self.path.fresh_name("$opaque-len")))
         if isinstance(v, VStr):
             if v.py is not None:
                 return VInt(len(v.py))
